@@ -68,7 +68,7 @@ pub fn dispatch(ctx: &mut Ctx, op: &str, call: &Value) -> Option<Value> {
             Ok(None) => out::ok(out::none()),
             Ok(Some((s, idx))) => out::ok(out::some(json!({
                 "at": ctx.off(s.as_ptr()), "len": out::num(s.len()), "idx": out::le(idx as u64, 4)}))),
-            Err(e) => out::err(&format!("{e:?}")),
+            Err(e) => out::err_of(&e),
         },
         "calc_checksum" => {
             let arch = match out::arg_u64(call, "arch") {
@@ -98,7 +98,7 @@ fn hload(ctx: &mut Ctx, call: &Value) -> Value {
             ctx.hdr = Some(h);
             out::ok(json!({}))
         }
-        Err(e) => out::err(&format!("{e:?}")),
+        Err(e) => out::err_of(&e),
     }
 }
 
